@@ -115,3 +115,50 @@ func H_C10_immutable() {
 	vfAssert(o1 == ref(v1) && o2 == ref(v2) && o3 == o1, "same inputs, same bytes, whatever ran before")
 	vfAssert(t.String() == before, "the parsed template is unchanged by execution")
 }
+
+// H_C10_twoSets: executions of templates from two Sets with different escapers (HTML,
+// none, user-supplied) alternate on one goroutine: each output is escaped by its own
+// Set's escaper, whatever ran before on the pooled runtime.
+//
+//gosym:reach rendered
+func H_C10_twoSets() {
+	e1, e2 := ndChoice("esc1", 3), ndChoice("esc2", 3)
+	x := ndString("x", 1)
+	s1 := hxSet(c01Opts(e1), "/m.jet", `{{ x }}`)
+	s2 := hxSet(c01Opts(e2), "/m.jet", `{{ x }}`)
+	vars := make(VarMap)
+	vars.Set("x", x)
+	o1, err1 := hxExec(s1, "/m.jet", vars, nil)
+	o2, err2 := hxExec(s2, "/m.jet", vars, nil)
+	o3, err3 := hxExec(s1, "/m.jet", vars, nil)
+	vfReach("rendered")
+	vfAssert(err1 == nil && err2 == nil && err3 == nil, "renders")
+	vfAssert(o1 == c01Want(e1, x) && o2 == c01Want(e2, x) && o3 == c01Want(e1, x), "each execution uses its own Set's escaper")
+}
+
+type c10Secret struct {
+	Name  string
+	token string
+}
+
+// H_C10_sameErrorAgain: the same failing execution fails the same way every time (an
+// unexported or missing field; first evaluation fills the struct-field cache).
+//
+//gosym:reach checked
+func H_C10_sameErrorAgain() {
+	srcs := []string{`{{ .token }}`, `{{ .Name }}{{ .token }}`, `{{ .Missing }}`, `{{ d.token }}`}
+	c := ndChoice("src", len(srcs))
+	set := hxSet(nil, "/m.jet", srcs[c])
+	vars := make(VarMap)
+	vars.Set("d", c10Secret{"bob", "s3cr3t"})
+	var outs [3]string
+	var errs [3]bool
+	for k := 0; k < 3; k++ {
+		o, err := hxExec(set, "/m.jet", vars, c10Secret{"bob", "s3cr3t"})
+		outs[k], errs[k] = o, err != nil
+	}
+	vfReach("checked")
+	vfAssert(errs[0] && errs[1] && errs[2], "the same inputs give the same error every time")
+	vfAssert(outs[0] == outs[1] && outs[1] == outs[2], "... and the same bytes")
+	vfAssert(!hxContains(outs[1], "s3cr3t") && !hxContains(outs[2], "s3cr3t"), "an unexported field is never rendered")
+}
